@@ -162,7 +162,11 @@ pub fn seceq(ws: &[&str]) -> String {
             }
             let content = if a == b { 1 } else { 0 };
             if eq {
-                format!("eq=1 sym={} hash={} content={}", sym as u8, (h(&x) == h(&y)) as u8, content)
+                // equal values must hash equally wherever the hash is taken: also on another thread
+                let b2 = b.clone();
+                let hy_thread = std::thread::spawn(move || h(&$t::new(b2))).join().unwrap();
+                let hash_ok = h(&x) == h(&y) && h(&x) == hy_thread;
+                format!("eq=1 sym={} hash={} content={}", sym as u8, hash_ok as u8, content)
             } else {
                 format!("eq=0 sym={} content={}", sym as u8, content)
             }
